@@ -246,6 +246,16 @@ def check_region(ctx, case, L, region, pts, use_flags, light=False):
                     if (k is None and not numpy.isnan(v)) or (k is not None and v != k):
                         ctx.violation("get_cartesian_wrong", {"ij": [i, j], "got": float(v), "want": k})
                         return
+        # laying data out on the bounding-box grid is a read-only request: the lookups answer as before (other data than the
+        # cell numbers themselves, so that an overwritten index table shows)
+        call(region.get_cartesian, numpy.arange(len(L.cells), dtype=float)[::-1] * 3.0 + 7.0)
+        if idx is not None and un:
+            o2 = call(region.get_index_of, lons[un], lats[un])
+            if not o2.ok:
+                ctx.unexpected(o2, "get_index_of:after_get_cartesian")
+            elif [int(k) for k in o2.value] != idx:
+                bad = next(j for j, (a, b) in enumerate(zip([int(k) for k in o2.value], idx)) if a != b)
+                ctx.violation("lookup_changed_by_get_cartesian", {"pt": pts[un[bad]], "before": idx[bad], "after": int(o2.value[bad])}, mini(un[bad]))
 
 
 def check_case(ctx, case):
